@@ -110,7 +110,12 @@ type c18Proxy struct {
 	h *c18H
 }
 
+const c18Panic = 1 << 40
+
 func c18Class(r am.Result) uint64 {
+	if r == am.Result(c18Panic) {
+		return 7
+	}
 	if r == am.Executed {
 		return 0
 	}
@@ -131,7 +136,16 @@ func (h *c18H) stIndex(states am.S) int {
 	return 99
 }
 
-func (h *c18H) gate(kind int, states am.S, args am.A, fn func() am.Result) am.Result {
+func (h *c18H) gate(kind int, states am.S, args am.A, fn0 func() am.Result) am.Result {
+	// a panic of the real call (e.g. unknown target state) is an observation
+	fn := func() (res am.Result) {
+		defer func() {
+			if r := recover(); r != nil {
+				res = am.Result(c18Panic)
+			}
+		}()
+		return fn0()
+	}
 	a := uint64(0)
 	if len(args) > 0 {
 		a = 1
